@@ -225,20 +225,26 @@ func runCheck(e *Engine, id, tier string, dir string) (*checkResult, error) {
 	// group blocks per function
 	byFunc := map[string][]*FuncContract{}
 	var order []string
+	// blocks with `mode U` (uninterpreted float operations: bit-identity claims) are a separate verification of the function
 	for _, b := range ps.Blocks {
-		if _, ok := byFunc[b.Name]; !ok {
-			order = append(order, b.Name)
+		gk := b.Name
+		if b.Mode == "U" {
+			gk += "|U"
 		}
-		byFunc[b.Name] = append(byFunc[b.Name], b)
+		if _, ok := byFunc[gk]; !ok {
+			order = append(order, gk)
+		}
+		byFunc[gk] = append(byFunc[gk], b)
 	}
-	for _, key := range order {
-		blocks := byFunc[key]
+	for _, gk := range order {
+		blocks := byFunc[gk]
+		key := strings.TrimSuffix(gk, "|U")
 		mode := "R"
+		if gk != key {
+			mode = "U"
+		}
 		var classes []string
 		for _, b := range blocks {
-			if b.Mode != "" {
-				mode = b.Mode
-			}
 			classes = append(classes, b.Classes...)
 		}
 		if _, ok := e.decls[key]; !ok {
